@@ -225,6 +225,25 @@ def handover_invariant(prog: Program, rep: Report) -> None:
         rep.check("R03.4", fi.qual, f"init, {case}: self.steps is the list the tables were built from", vtext(env.get("forcing.steps")) == "steps" and vtext(env.get("forcing.stepdiff")) == "diff(steps)", what_bad=f"steps={vtext(env.get('forcing.steps'))} stepdiff={vtext(env.get('forcing.stepdiff'))}", what_ok="same list", loc=fi.loc())
 
 
+def storage_not_shared(prog: Program, rep: Report, rule: str = "R03.10") -> None:
+    """The fields of the hand-over (u, u_new, dU, ... in `self.fields`) are separate arrays wherever one of them is
+    written in place: `u += dU` (and any `-=`, `[...] =`, `out=`) must not reach storage that another field entry may
+    hold on the same path - otherwise advancing the field in force also rewrites the frame that is handed over later."""
+    from ..alias import shared_writes
+
+    mod = prog.module(prog.role_module["forcing"])
+    cls = prog.role_class["forcing"]
+    n = 0
+    for fi in mod.functions.values():
+        if fi.cls != cls:
+            continue
+        n += 1
+        reps = shared_writes(fi.node, lambda s: s.startswith("self.fields["))
+        rep.check(rule, fi.qual, "in-place writes reach one field entry only", not reps, what_bad="; ".join(f"line {getattr(at, 'lineno', '?')}: in-place write through `{t}` reaches storage that {' and '.join(h)} may both hold (bound without a copy earlier on this path)" for at, t, h in reps), what_ok="no in-place write to storage shared by two field entries", loc=fi.loc(reps[0][0]) if reps else fi.loc())
+    if n == 0:
+        rep.add(rule, f"{mod.name}.{cls}", "methods of the forcing class", None, "no methods found", "")
+
+
 def prestart_frame(prog: Program, rep: Report, rule: str = "R03.2") -> None:
     """The frame the constructor primes from is the last one strictly before the start: a frame exactly on the
     start (step 0) must be the *next* frame, which the first update hands over to - were it taken as the pre-start
@@ -584,8 +603,10 @@ def run(prog: Program, rep: Report, tier: str) -> None:
     c19.step_word_analysis(prog, sub)
     for o in sub.obligations:
         rep.add("R03.8", o.func, f"[{o.rule}] {o.construct}", o.verdict == "ok" if o.verdict != "undecided" else None, o.what, o.loc)
+    rep.rule("R03.10", "an in-place write to a field array reaches one entry of self.fields only (no storage shared between the field in force and the frame handed over later), in every method of the forcing class", 8)
     file_selection(prog, rep)
     handover_invariant(prog, rep)
+    storage_not_shared(prog, rep)
     prestart_frame(prog, rep)
     sorted_steps(prog, rep)
     fractional(prog, rep)
